@@ -3,6 +3,7 @@
    Proofs/GenEq*.v prove it equal to the hand-written model for all inputs. *)
 From CG Require Import Model.Metrics Model.Slice Model.Loop Model.Recur Model.Cache.
 
+From CG Require Import Model.Small.
 
 (* calgebra/interval.py: Interval.finite_start *)
 Definition g_finite_start (self : ivl) : Z :=
@@ -1080,4 +1081,269 @@ Definition g_period_windows_dt {DT : Type} {TD : Type} (fuel : nat) (p_fromtimes
         (windows, current)
     | Metrics.PFull =>
       (RDone [(start_dt, start_ts, end_ts)])
+    end.
+
+(* calgebra/util.py: SECOND *)
+Definition g_const_SECOND : Z :=
+  1.
+
+(* calgebra/util.py: MINUTE *)
+Definition g_const_MINUTE : Z :=
+  60.
+
+(* calgebra/util.py: HOUR *)
+Definition g_const_HOUR : Z :=
+  3600.
+
+(* calgebra/util.py: DAY *)
+Definition g_const_DAY : Z :=
+  86400.
+
+(* calgebra/util.py: WEEK *)
+Definition g_const_WEEK : Z :=
+  604800.
+
+(* calgebra/util.py: MONTH *)
+Definition g_const_MONTH : Z :=
+  2678400.
+
+(* calgebra/util.py: YEAR *)
+Definition g_const_YEAR : Z :=
+  31536000.
+
+(* calgebra/interval.py: NEG_INF *)
+Definition g_const_NEG_INF : Z :=
+  (- (9223372036854775807 - 1)).
+
+(* calgebra/interval.py: POS_INF *)
+Definition g_const_POS_INF : Z :=
+  (9223372036854775807 - 1).
+
+(* calgebra/interval.py: Interval.__post_init__ *)
+Definition g_interval_post_init (self : ivl) : res unit :=
+  if ((negb (is_none (st self))) && (negb (is_none (en self)))) then
+    if ((ozd (st self)) >? (ozd (en self))) then
+      (RRaise ValueError)
+    else
+      (RDone tt)
+  else
+    (RDone tt).
+
+(* calgebra/interval.py: Interval.duration *)
+Definition g_interval_duration (self : ivl) : option Z :=
+  if ((is_none (st self)) || (is_none (en self))) then
+    None
+  else
+    (Some ((ozd (en self)) - (ozd (st self)))).
+
+(* calgebra/interval.py: Interval.from_datetimes *)
+Definition g_interval_from_datetimes (cls_new : Z -> Z -> res ivl) (start : dtarg) (end_ : dtarg) : res ivl :=
+  match start with
+  | DAware start_t start_zone =>
+    match end_ with
+    | DAware end__t end__zone =>
+      res_bind (cls_new start_t end__t) (fun r1_ =>
+      (RDone r1_))
+    | DNaive =>
+      (RRaise ValueError)
+    end
+  | DNaive =>
+    match end_ with
+    | DAware end__t end__zone =>
+      (RRaise ValueError)
+    | DNaive =>
+      (RRaise ValueError)
+    end
+  end.
+
+(* calgebra/transform.py: _Buffered.__init__ *)
+Definition g_buffered_init {TL : Type} (source : TL) (before : Z) (after : Z) : bufrec TL :=
+  let self_source := source in
+  let self_before := before in
+  let self_after := after in
+  (mkBuf self_source self_before self_after).
+
+(* calgebra/transform.py: _MergedWithin.__init__ *)
+Definition g_merged_init {TL : Type} (source : TL) (gap_ : Z) : mwrec TL :=
+  let self_source := source in
+  let self_gap := gap_ in
+  (mkMW self_source self_gap).
+
+(* calgebra/transform.py: _MergedWithin.fetch *)
+Definition g_merged_fetch (source_fetch : option Z -> option Z -> bool -> list ivl) (self_gap : Z) (start : option Z) (end_ : option Z) (reverse : bool) : list ivl :=
+  if reverse then
+    (rev (g_merged_fetch_forward source_fetch self_gap start end_))
+  else
+    (g_merged_fetch_forward source_fetch self_gap start end_).
+
+(* calgebra/transform.py: buffer *)
+Definition g_buffer {TL : Type} (timeline : TL) (before : Z) (after : Z) : res (bufrec TL) :=
+  if (before <? 0) then
+    (RRaise ValueError)
+  else
+    if (after <? 0) then
+      (RRaise ValueError)
+    else
+      (RDone (g_buffered_init timeline before after)).
+
+(* calgebra/transform.py: merge_within *)
+Definition g_merge_within {TL : Type} (timeline : TL) (gap_ : Z) : mwrec TL :=
+  (g_merged_init timeline gap_).
+
+(* calgebra/core.py: _flatten_sources *)
+Definition g_flatten_sources {TL : Type} (tl_is_cls : TL -> bool) (tl_sources : TL -> list TL) (sources : list TL) : list TL :=
+  let flattened := (@nil TL) in
+  iter_for
+    (fun flattened source =>
+      if (tl_is_cls source) then
+        let flattened := (flattened ++ (tl_sources source)) in
+        (SCont flattened)
+      else
+        let flattened := (flattened ++ [source]) in
+        (SCont flattened))
+    (fun flattened =>
+      flattened)
+    flattened sources.
+
+(* calgebra/core.py: Union.__init__ *)
+Definition g_union_init {TL : Type} (tl_is_union : TL -> bool) (tl_sources : TL -> list TL) (sources : list TL) : srcsrec TL :=
+  let self_sources := (g_flatten_sources tl_is_union tl_sources sources) in
+  (mkSrcs self_sources).
+
+(* calgebra/core.py: Intersection.__init__ *)
+Definition g_intersection_init {TL : Type} (tl_is_intersection : TL -> bool) (tl_sources : TL -> list TL) (sources : list TL) : srcsrec TL :=
+  let self_sources := (g_flatten_sources tl_is_intersection tl_sources sources) in
+  (mkSrcs self_sources).
+
+(* calgebra/core.py: Filtered.__init__ *)
+Definition g_filtered_init {TL : Type} {FT : Type} (source : TL) (filter_ : FT) : filtrec TL FT :=
+  let self_source := source in
+  let self_filter := filter_ in
+  (mkFilt self_source self_filter).
+
+(* calgebra/core.py: Difference.__init__ *)
+Definition g_difference_init {TL : Type} (source : TL) (subtractors : list TL) : diffrec TL :=
+  let self_source := source in
+  let self_subtractors := subtractors in
+  (mkDiff self_source self_subtractors).
+
+(* calgebra/core.py: Complement.__init__ *)
+Definition g_complement_init {TL : Type} (source : TL) : complrec TL :=
+  let self_source := source in
+  (mkCompl self_source).
+
+(* calgebra/core.py: Timeline.__or__ *)
+Definition g_tl_or {TL : Type} {FT : Type} (mk_union : TL -> TL -> TL) (self : TL) (other : operand TL FT) : res TL :=
+  match other with
+  | OTimeline other_tl =>
+    (RDone (mk_union self other_tl))
+  | OFilter other_f =>
+    (RRaise TypeError)
+  end.
+
+(* calgebra/core.py: Timeline.__and__ *)
+Definition g_tl_and {TL : Type} {FT : Type} (mk_filtered : TL -> FT -> TL) (mk_intersection : TL -> TL -> TL) (self : TL) (other : operand TL FT) : TL :=
+  match other with
+  | OTimeline other_tl =>
+    (mk_intersection self other_tl)
+  | OFilter other_f =>
+    (mk_filtered self other_f)
+  end.
+
+(* calgebra/core.py: Timeline.__sub__ *)
+Definition g_tl_sub {TL : Type} (mk_difference : TL -> TL -> TL) (self : TL) (other : TL) : TL :=
+  (mk_difference self other).
+
+(* calgebra/core.py: Timeline.__invert__ *)
+Definition g_tl_invert {TL : Type} (mk_complement : TL -> TL) (self : TL) : TL :=
+  (mk_complement self).
+
+(* calgebra/core.py: flatten *)
+Definition g_flatten {TL : Type} (tl_invert : TL -> TL) (timeline : TL) : TL :=
+  (tl_invert (tl_invert timeline)).
+
+(* calgebra/core.py: Timeline._is_mask *)
+Definition g_base_is_mask  : bool :=
+  false.
+
+(* calgebra/core.py: _SolidTimeline._is_mask *)
+Definition g_solid_is_mask  : bool :=
+  true.
+
+(* calgebra/core.py: Union._is_mask *)
+Definition g_union_is_mask {TL : Type} (self_sources : list TL) (tl_is_mask : TL -> bool) : bool :=
+  (forallb (fun s => (tl_is_mask s)) self_sources).
+
+(* calgebra/core.py: Intersection._is_mask *)
+Definition g_intersection_is_mask {TL : Type} (self_sources : list TL) (tl_is_mask : TL -> bool) : bool :=
+  (forallb (fun s => (tl_is_mask s)) self_sources).
+
+(* calgebra/core.py: Filtered._is_mask *)
+Definition g_filtered_is_mask {TL : Type} (self_source : TL) (tl_is_mask : TL -> bool) : bool :=
+  (tl_is_mask self_source).
+
+(* calgebra/core.py: Difference._is_mask *)
+Definition g_difference_is_mask {TL : Type} (self_source : TL) (tl_is_mask : TL -> bool) : bool :=
+  (tl_is_mask self_source).
+
+(* calgebra/core.py: Complement._is_mask *)
+Definition g_complement_is_mask  : bool :=
+  true.
+
+(* calgebra/core.py: Timeline._is_mask *)
+Definition g_buffered_is_mask  : bool :=
+  false.
+
+(* calgebra/core.py: Timeline._is_mask *)
+Definition g_merged_is_mask  : bool :=
+  false.
+
+(* calgebra/core.py: Timeline._is_mask *)
+Definition g_memory_is_mask  : bool :=
+  false.
+
+(* calgebra/cache.py: CachedTimeline._is_mask *)
+Definition g_cached_is_mask {TL : Type} (self_source : TL) (tl_is_mask : TL -> bool) : bool :=
+  (tl_is_mask self_source).
+
+(* calgebra/cache.py: CachedTimeline.__init__ *)
+Definition g_cached_init {TL : Type} (tl_is_mask : TL -> bool) (source : TL) (ttl : Z) (key_ : keyarg) : cacherec TL :=
+  let self_source := source in
+  let self_ttl := ttl in
+  if (tl_is_mask source) then
+    let self_key_fields := None in
+    let self_key_validated := false in
+    let self_sink := (@nil ivl) in
+    let self_cover := (@nil cov) in
+    let self_expiry_heap := (@nil hent) in
+    let self_expiry_seq := 0%N in
+    (mkCacheRec self_source self_ttl self_key_fields self_key_validated self_sink self_cover self_expiry_heap self_expiry_seq)
+  else
+    match key_ with
+    | KStr key__s =>
+      let self_key_fields := (Some [key__s]) in
+      let self_key_validated := false in
+      let self_sink := (@nil ivl) in
+      let self_cover := (@nil cov) in
+      let self_expiry_heap := (@nil hent) in
+      let self_expiry_seq := 0%N in
+      (mkCacheRec self_source self_ttl self_key_fields self_key_validated self_sink self_cover self_expiry_heap self_expiry_seq)
+    | KSeq key__l =>
+      let self_key_fields := (Some key__l) in
+      let self_key_validated := false in
+      let self_sink := (@nil ivl) in
+      let self_cover := (@nil cov) in
+      let self_expiry_heap := (@nil hent) in
+      let self_expiry_seq := 0%N in
+      (mkCacheRec self_source self_ttl self_key_fields self_key_validated self_sink self_cover self_expiry_heap self_expiry_seq)
+    end.
+
+(* calgebra/cache.py: CachedTimeline._get_key *)
+Definition g_cache_get_key {FV : Type} (self_key_fields : option ((list N))) (ivl_getattr : ivl -> N -> option FV) (ivl_ : ivl) : res (option ((list FV))) :=
+  if (is_none self_key_fields) then
+    (RDone None)
+  else
+    match opt_all (map (fun f => ivl_getattr ivl_ f) (match self_key_fields with Some v_ => v_ | None => [] end)) with
+    | Some v_ => (RDone (Some v_))
+    | None => (RRaise TypeError)
     end.
